@@ -8,15 +8,20 @@
 (* checked bounds (0..6 paragraphs, texts of up to 8 lines) are validated. *)
 (*                                                                         *)
 (* kind = "codec": one format_multiline_lines -> parse_multiline_as_lines  *)
-(*   execution  [ls, enc, out, exc]                                        *)
+(*   execution  [ls, enc, out, exc, out2, out3, kept]: out2 = a second     *)
+(*   format+parse of the same list and out3 = a second parse of the same   *)
+(*   encoded string, both made AFTER the caller changed the list that the  *)
+(*   first call returned; kept = the input list was left unchanged         *)
 (*   1 FormatLines(ls) = enc           DIAGNOSTIC (<<"REJECT", tid, "enc">>)*)
 (*   2 inside the domain of the law (CodecDomain): no exception and        *)
 (*     out = ParseLines(FormatLines(ls)) -- which CopyrightDoc's CodecLaw  *)
-(*     proves to be ls.  Outside the domain the same comparison is         *)
-(*     DIAGNOSTIC (<<"REJECT", tid, "normal">>).                           *)
+(*     proves to be ls -- and the same for out2, out3; kept.  Outside the  *)
+(*     domain the same comparison is DIAGNOSTIC (<<"REJECT", tid,          *)
+(*     "normal">>).                                                        *)
 (*                                                                         *)
 (* kind = "doc": one build -> dump -> strict re-parse -> dump execution    *)
-(*   [start, hdr, ops, order, dump, load, warn, same]                      *)
+(*   [start, hdr, ops, order, dump, load, warn, same, edits, load2, same2, *)
+(*    load3]                                                               *)
 (*   start  "api": ops are the add_*_paragraph calls in call order;        *)
 (*          "parsed": the document was obtained by parsing a text whose    *)
 (*          paragraphs are ops in that order (any interleaving)            *)
@@ -34,6 +39,13 @@
 (*   4 RoundTrip: load = [err |-> "none", hdr, paragraphs in the observed  *)
 (*     order], no warning                                                  *)
 (*   5 Stable: same                                                        *)
+(*   6 the re-parsed document was then changed by `edits` (setters of a    *)
+(*     paragraph, add_*_paragraph; CopyrightDoc!ApplyEdits), dumped and    *)
+(*     strictly re-parsed: load2 = [err |-> "none", hdr, edited document], *)
+(*     same2 = the dump of that re-parse equals the dump it was read from  *)
+(*     (nothing of the first round trip may leak: CopyrightDoc's memo)     *)
+(*   7 load3 = the FIRST dump parsed once more, after the first parse      *)
+(*     result was edited: it still gives the unedited document             *)
 (* <<"ACCEPTED", tid>> is printed for a trace that passes the non-         *)
 (* diagnostic steps; diagnostic mismatches print <<"REJECT", tid, what>>   *)
 (* (reported as spec drift) and the trace goes on.                         *)
@@ -50,7 +62,7 @@ Tr == Traces[tid]
 
 TInit == /\ tid \in 1..Len(Traces)
          /\ l = 1
-         /\ lst = <<>> /\ paras = <<>> /\ hist = <<>> /\ big = FALSE /\ hk = "trace"
+         /\ lst = <<>> /\ paras = <<>> /\ hist = <<>> /\ big = FALSE /\ hk = "trace" /\ ed = <<>>
 
 Advance == /\ l' = l + 1
            /\ UNCHANGED <<vars, tid>>
@@ -62,7 +74,9 @@ CEnc == /\ Tr.kind = "codec" /\ l = 1
         /\ Note(FormatLines(Tr.ls) = Tr.enc, "enc")
         /\ Advance
 CDec == /\ Tr.kind = "codec" /\ l = 2
-        /\ LET explained == Tr.exc = "" /\ Tr.out = ParseLines(FormatLines(Tr.ls))
+        /\ LET explained == /\ Tr.exc = "" /\ Tr.kept
+                             /\ Tr.out = ParseLines(FormatLines(Tr.ls))
+                             /\ Tr.out2 = Tr.out /\ Tr.out3 = Tr.out
            IN IF CodecDomain(Tr.ls) THEN explained ELSE Note(explained, "normal")
         /\ Advance
         /\ PrintT(<<"ACCEPTED", tid>>)
@@ -93,8 +107,15 @@ DRound == /\ Tr.kind = "doc" /\ l = 4
 DSame  == /\ Tr.kind = "doc" /\ l = 5
           /\ Tr.same
           /\ Advance
+DEdit  == /\ Tr.kind = "doc" /\ l = 6
+          /\ RoundTripOf(Tr.hdr, ApplyEdits(Built, Tr.edits), Tr.load2)
+          /\ Tr.same2
+          /\ Advance
+DAgain == /\ Tr.kind = "doc" /\ l = 7
+          /\ RoundTripOf(Tr.hdr, Built, Tr.load3)
+          /\ Advance
           /\ PrintT(<<"ACCEPTED", tid>>)
 
-TNext == CEnc \/ CDec \/ DBuild \/ DDump \/ DLoad \/ DRound \/ DSame
+TNext == CEnc \/ CDec \/ DBuild \/ DDump \/ DLoad \/ DRound \/ DSame \/ DEdit \/ DAgain
 TSpec == TInit /\ [][TNext]_tvars
 =============================================================================
